@@ -298,15 +298,27 @@ func c46ClassifyV1(stream []byte) c46Verdict {
 		parse = c46StrictV6
 	}
 	dc := false
+	// narrow class: which family was announced and whether the text is an
+	// address of the other family or no address at all
+	addrClass := func(s string) string {
+		other := c46StrictV6
+		if f[0] == "TCP6" {
+			other = c46StrictV4
+		}
+		if _, ok, _ := other(s); ok {
+			return "bad-v1-addr-other-family-in-" + strings.ToLower(f[0])
+		}
+		return "bad-v1-addr-unparsable-in-" + strings.ToLower(f[0])
+	}
 	src, ok, d := parse(f[1])
 	dc = dc || d
 	if !ok && !d {
-		return rej("bad-v1-addr")
+		return rej(addrClass(f[1]))
 	}
 	dst, ok, d := parse(f[2])
 	dc = dc || d
 	if !ok && !d {
-		return rej("bad-v1-addr")
+		return rej(addrClass(f[2]))
 	}
 	sp, ok, d := c46StrictPort(f[3])
 	dc = dc || d
